@@ -72,6 +72,9 @@ type Scenario struct {
 	Quote        feegen.Quote  `json:"quote"`
 	Expected     *feegen.Quote `json:"expected_quote,omitempty"` // bid flows: the seller's ExpectedFQ when it differs
 	ListedOther  bool          `json:"listed_other,omitempty"`   // validation is given some other UTXO than the one listed / bid for
+	// TamperPay (bid flow): the partially signed bid reaches the seller with this amount on the payment output instead
+	// of the bid amount (no bidder signature covers that output); 0 = as made
+	TamperPay uint64 `json:"tamper_pay,omitempty"`
 	Note         string        `json:"note,omitempty"`
 }
 
@@ -203,6 +206,9 @@ func Run(s Scenario) (res Result) {
 		}
 		res.PSTx = cloneFull(pstx)
 		res.readBidScripts(pstx, 1)
+		if s.TamperPay != 0 && len(pstx.Outputs) > 1 {
+			pstx.Outputs[1].Satoshis = s.TamperPay
+		}
 		res.Final, res.Err = ord.AcceptBidToBuy1SatOrdinal(ctx,
 			&ord.ValidateBidArgs{OrdinalUTXO: s.listedUTXO(), BidAmount: s.Price, ExpectedFQ: s.expectedFQ()},
 			&ord.AcceptBidArgs{PSTx: pstx, SellerReceiveScript: sc(s.SellerScript), OrdinalUnlocker: ordUnlocker})
